@@ -7,9 +7,11 @@ From FS Require Import lib.Str lib.Res lib.Dec lib.F64 gen.FuncGen model.Agg spe
 Import ListNotations.
 
 (* the functions the source treats as aggregates *)
-Theorem C07_aggregate_functions :
-  Function_is_aggregate_function_list = [FnMin; FnMax; FnAvg; FnSum; FnCount; FnStdDevPop; FnStdDevSamp; FnVarPop; FnVarSamp].
-Proof. reflexivity. Qed.
+(* (a statement about membership, not about the order in which the source happens to list them) *)
+Theorem C07_aggregate_functions : forall f,
+  Function_is_aggregate_function f =
+  existsb (Function_eqb f) [FnMin; FnMax; FnAvg; FnSum; FnCount; FnStdDevPop; FnStdDevSamp; FnVarPop; FnVarSamp].
+Proof. intros f; destruct f; reflexivity. Qed.
 
 (* COUNT is the number of matching entries, for every buffer *)
 Theorem C07_count : forall d buf key,
